@@ -224,42 +224,6 @@ Proof.
 Qed.
 
 (** * the element: offset_particle_set ; num_steps steps of length L/num_steps ; offset_particle_unset *)
-Lemma sympl_plus_rot a : symplectic_wrt S6plus (rot a).
-Proof. pose proof (sin2_cos2 a) as H. unfold Rsqr in H. unfold rot. entries; try ring; try (ring_simplify; lra). Qed.
-Lemma sympl_plus_shift mx my : symplectic_wrt S6plus (shift mx my).
-Proof. unfold shift. entries; ring. Qed.
-
-Definition off_in (ox oy tilt : R) : M7 R := rmmul (rot tilt) (mis_entry ox oy).
-Definition off_out (ox oy tilt : R) : M7 R := rmmul (mis_exit ox oy) (rot (- tilt)).
-Lemma affine_off_in ox oy t : affine (off_in ox oy t).
-Proof. apply affine_mul; [apply seventh_row_rot|apply seventh_row_shift]. Qed.
-Lemma affine_off_out ox oy t : affine (off_out ox oy t).
-Proof. apply affine_mul; [apply seventh_row_shift|apply seventh_row_rot]. Qed.
-Lemma sympl_off_in ox oy t : symplectic_wrt S6plus (off_in ox oy t).
-Proof. apply sympl_wrt_mul; [apply seventh_row_shift|apply sympl_plus_rot|apply sympl_plus_shift]. Qed.
-Lemma sympl_off_out ox oy t : symplectic_wrt S6plus (off_out ox oy t).
-Proof. apply sympl_wrt_mul; [apply seventh_row_rot|apply sympl_plus_shift|apply sympl_plus_rot]. Qed.
-
-(** conjugation of any Jacobian by the offset maps *)
-Lemma conj_off_has_jac (F : bpart -> bpart) ox oy tilt q J : affine J ->
-  has_jac F (off_set ox oy tilt q) J ->
-  has_jac (fun p => off_unset ox oy tilt (F (off_set ox oy tilt p))) q (rmmul (off_out ox oy tilt) (rmmul J (off_in ox oy tilt))).
-Proof.
-  intros HJ H.
-  apply (has_jac_post (off_out ox oy tilt) (off_unset ox oy tilt) (fun p => F (off_set ox oy tilt p))).
-  - apply affine_mul; [exact HJ|apply affine_off_in].
-  - intros p. apply off_unset_matrix.
-  - apply (has_jac_pre (off_in ox oy tilt) (off_set ox oy tilt) F); [apply affine_off_in|intros p; apply off_set_matrix|exact H].
-Qed.
-Lemma conj_off_sympl ox oy tilt J : affine J -> symplectic_wrt S6plus J ->
-  symplectic_wrt S6plus (rmmul (off_out ox oy tilt) (rmmul J (off_in ox oy tilt))).
-Proof.
-  intros HA HJ. apply sympl_wrt_mul.
-  - apply affine_mul; [exact HA|apply affine_off_in].
-  - apply sympl_off_out.
-  - apply sympl_wrt_mul; [apply affine_off_in|exact HJ|apply sympl_off_in].
-Qed.
-
 Section Element.
 Variables (n : nat) (L k1 ox oy tilt p0c m : R).
 Hypotheses (HL : L <> 0) (Hk : k1 <> 0) (Hn : n <> O).
@@ -309,6 +273,66 @@ Proof.
   - apply quadx_bmad_sympl. exact Hp.
 Qed.
 End Element.
+
+(** * the hypothesis on low_energy_z_correction holds off its branch threshold (non-vacuity) *)
+Lemma locally_pos_at (f : R -> R) x : ex_derive f x -> 0 < f x -> locally x (fun t => 0 < f t).
+Proof.
+  intros Hd Hp. apply ex_derive_continuous in Hd.
+  apply (Hd (fun y => 0 < y)). apply (open_gt 0). exact Hp.
+Qed.
+
+Lemma lt_of_pos1 (a b : R) : 0 < 1 * (a - b) -> b < a. Proof. lra. Qed.
+Lemma le_of_posm1 (a b : R) : 0 < -1 * (a - b) -> a <= b. Proof. lra. Qed.
+
+(** low_energy_z_correction is differentiable in pz away from its branch threshold *)
+Lemma lez_ex_derive p0c m l pz : 0 < m -> 0 < p0c -> 0 < 1 + pz ->
+  lez_eval pz p0c m <> lez_thr * lez_etot p0c m -> ex_derive (fun p => lez p p0c m l) pz.
+Proof.
+  intros Hm Hp Hr Hne.
+  assert (Hev : forall c, ex_derive (fun p => c * (lez_thr * lez_etot p0c m - lez_eval p p0c m)) pz).
+  { intros c. unfold lez_eval, Rsqr. auto_derive. exact I. }
+  destruct (Rlt_dec (lez_eval pz p0c m) (lez_thr * lez_etot p0c m)) as [Hlt|Hge].
+  - apply (ex_derive_ext_loc (fun p => lez_series p p0c m l)).
+    + assert (L : locally pz (fun p : R => 0 < 1 * (lez_thr * lez_etot p0c m - lez_eval p p0c m))) by (apply locally_pos_at; [apply Hev|lra]).
+      revert L. apply filter_imp. intros p Hp'. unfold lez. rewrite lez_small_true by (apply lt_of_pos1; exact Hp'). reflexivity.
+    + unfold lez_series, Rsqr. cbv zeta. auto_derive. exact I.
+  - assert (Hgt : lez_thr * lez_etot p0c m < lez_eval pz p0c m) by lra.
+    apply (ex_derive_ext_loc (fun p => lez_exact p p0c m l)).
+    + assert (L : locally pz (fun p : R => 0 < -1 * (lez_thr * lez_etot p0c m - lez_eval p p0c m))) by (apply locally_pos_at; [apply Hev|lra]).
+      revert L. apply filter_imp. intros p Hp'. unfold lez. rewrite lez_small_false by (apply le_of_posm1; exact Hp'). reflexivity.
+    + unfold lez_exact, lez_beta, lez_beta0, Rsqr. auto_derive.
+      assert (0 < m * m) by nra. pose proof (Rle_0_sqr ((1 + pz) * p0c)) as Q1. pose proof (Rle_0_sqr p0c) as Q2. unfold Rsqr in Q1, Q2.
+      assert (0 < (1 + pz) * p0c * ((1 + pz) * p0c) + m * m) by lra.
+      assert (0 < p0c * p0c + m * m) by lra.
+      assert (0 < sqrt (p0c * p0c + m * m)) by (apply sqrt_lt_R0; assumption).
+      assert (0 < sqrt ((1 + pz) * p0c * ((1 + pz) * p0c) + m * m)) by (apply sqrt_lt_R0; assumption).
+      repeat split; try assumption; try lra.
+Qed.
+
+(* non-vacuity: at pz = 0 (and near it) the series branch is taken and the hypothesis of the Jacobian theorems holds *)
+Lemma lez_ex_derive_0 p0c m l : 0 < m -> 0 < p0c -> ex_derive (fun p => lez p p0c m l) 0.
+Proof.
+  intros Hm Hp. apply lez_ex_derive; try assumption; try lra.
+  unfold lez_eval, lez_thr, lez_etot, Rsqr. rewrite Rmult_0_r, Rmult_0_l, Rmult_0_r.
+  assert (0 < sqrt (p0c * p0c + m * m)) by (apply sqrt_lt_R0; nra). lra.
+Qed.
+
+(** everything together for one step: at every point with 1 + pz > 0 off the branch threshold of low_energy_z_correction the coded step
+    (eps := 0) has a Jacobian, it is [quadx_jac], and it is symplectic *)
+Theorem quadx_step_sympl_everywhere Lf k1 l p0c m q : 0 < m -> 0 < p0c -> Lf <> 0 -> k1 <> 0 -> 0 < 1 + bpz q ->
+  lez_eval (bpz q) p0c m <> lez_thr * lez_etot p0c m ->
+  exists dl, has_jac (quadx_step 0 Lf k1 l p0c m) q (quadx_jac k1 l q dl) /\ symplectic_wrt S6plus (quadx_jac k1 l q dl).
+Proof.
+  intros Hm Hp HL Hk Hr Hne. destruct (lez_ex_derive p0c m l (bpz q) Hm Hp Hr Hne) as [dl Hdl].
+  exists dl. split; [apply quadx_step_has_jac; assumption|apply quadx_jac_sympl; exact Hr].
+Qed.
+Lemma quadx_nonvacuous Lf k1 l p0c m x px y py z : 0 < m -> 0 < p0c -> Lf <> 0 -> k1 <> 0 ->
+  exists dl, has_jac (quadx_step 0 Lf k1 l p0c m) (mkb x px y py z 0) (quadx_jac k1 l (mkb x px y py z 0) dl)
+             /\ symplectic_wrt S6plus (quadx_jac k1 l (mkb x px y py z 0) dl).
+Proof.
+  intros Hm Hp HL Hk. destruct (lez_ex_derive_0 p0c m l Hm Hp) as [dl Hdl].
+  exists dl. split; [apply quadx_step_has_jac; try assumption; cbn [bpz]; lra|apply quadx_jac_sympl; cbn [bpz]; lra].
+Qed.
 
 (** * the coded eps = 2^-52: the step is linear in (x,px) with the 2x2 block below, whose determinant is 1 -+ eps sx^2; any Jacobian with
       that block (fibred shape) has that number, not 1, in the (x,px) entry of J^T S J.  PARTIAL: symplectic up to eps only. *)
